@@ -552,6 +552,11 @@ func runC09(c *Ctx) {
 		}
 		c.R.Check(flows && guardOK && n >= 2, key, c.ipos(ct), "negotiated content type flows to writeHeaders and selects the status table", sprintf("negotiated content type: flows to writeHeaders=%v, selects status table=%v (%d status helper calls)", flows, guardOK, n))
 	}
+
+	// which operation runs, and with which status it is answered, may not depend on an earlier request: no member of the
+	// pooled request object survives (C07/pool-reset) and only validated documents are cached (C03/cache-after-validate)
+	c07PoolReset(c)
+	c03Cache(c)
 }
 
 // closureCreatedAfter: the MakeClosure creating fn (or `go`/defer of it) is dominated by instruction h in the parent.
